@@ -13,6 +13,12 @@ func (p *PointProj) phi(p1 *PointProj) *PointProj {
 
 	initOnce.Do(initCurveParams)
 
+	// the points with x = 0, (0,1) and (0,-1), form the kernel of the endomorphism; the formulas
+	// below evaluate to (0:0:0) there
+	if p1.X.IsZero() {
+		return p.setInfinity()
+	}
+
 	var zz, yy, xy, f, g, h fr.Element
 	zz.Square(&p1.Z)
 	yy.Square(&p1.Y)
@@ -45,8 +51,13 @@ func (p *PointProj) scalarMulGLV(p1 *PointProj, scalar *big.Int) *PointProj {
 	table[0].Set(p1)
 	table[3].phi(p1)
 
+	// reduce the scalar modulo the group order: the two halves are stored in fr.Element, whose
+	// modulus is not the group order, and the decomposition loses precision beyond 2*len(Order) bits
+	var s big.Int
+	s.Mod(scalar, &curveParams.Order)
+
 	// split the scalar, modifies +-p1, phi(p1) accordingly
-	k := ecc.SplitScalar(scalar, &curveParams.glvBasis)
+	k := ecc.SplitScalar(&s, &curveParams.glvBasis)
 
 	if k[0].Sign() == -1 {
 		k[0].Neg(&k[0])
@@ -109,6 +120,12 @@ func (p *PointProj) scalarMulGLV(p1 *PointProj, scalar *big.Int) *PointProj {
 func (p *PointExtended) phi(p1 *PointExtended) *PointExtended {
 	initOnce.Do(initCurveParams)
 
+	// the points with x = 0, (0,1) and (0,-1), form the kernel of the endomorphism; the formulas
+	// below evaluate to (0:0:0) there
+	if p1.X.IsZero() {
+		return p.setInfinity()
+	}
+
 	var zz, yy, xy, f, g, h fr.Element
 	zz.Square(&p1.Z)
 	yy.Square(&p1.Y)
@@ -142,8 +159,13 @@ func (p *PointExtended) scalarMulGLV(p1 *PointExtended, scalar *big.Int) *PointE
 	table[0].Set(p1)
 	table[3].phi(p1)
 
+	// reduce the scalar modulo the group order: the two halves are stored in fr.Element, whose
+	// modulus is not the group order, and the decomposition loses precision beyond 2*len(Order) bits
+	var s big.Int
+	s.Mod(scalar, &curveParams.Order)
+
 	// split the scalar, modifies +-p1, phi(p1) accordingly
-	k := ecc.SplitScalar(scalar, &curveParams.glvBasis)
+	k := ecc.SplitScalar(&s, &curveParams.glvBasis)
 
 	if k[0].Sign() == -1 {
 		k[0].Neg(&k[0])
